@@ -4,7 +4,10 @@ Two bandits with identical constructor arguments; A gets fit(all rows), B gets f
 every consecutive chunk; no query in between (so both are at the same random-stream position by construction;
 the generator signatures are compared and a difference is counted as a diagnostic).  Then the same query
 stream is put to both and compared bit-for-bit (count/sum and neighbourhood policies on exactly summable
-data) or within 1e-8 (1+|v|) (linear policies)."""
+data) or within 1e-8 (1+|v|) (linear policies).
+
+As built: A third of the LinGreedy / LinUCB cases without neighbourhood policy run unregularised (l2_lambda = 0, contexts in general position).
+"""
 from mon import env  # noqa: F401
 import numpy as np
 
